@@ -1,6 +1,7 @@
 """C12 — merged channel and template arrays are block-structured by probe (DESIGN.md §5 C12)."""
 from . import common as C
 from . import merge_common as M
+from . import prop_c11 as F          # the merge as a function on a file system (Lean C11.merge)
 
 PID = 'C12'
 PARALLEL = True
@@ -8,15 +9,17 @@ BATCH = 60
 BUDGET_S = {'quick': 80, 'thorough': 1200}
 RULE = ('1..4 probes with different channel counts (>= 2) and template counts (>= 2), permuted channel '
         'maps, non-negative coordinates (incl. probes whose channels share one x), index tables of '
-        'int32/int64/uint32, whitening / similarity matrices in all or only some probes; every template '
-        'cell is a distinct token. One case = one real Merger.merge(). non-trivial = >= 2 probes (>= 3 '
-        'probes of different sizes are forced in the first cases)')
+        'int32/int64/uint32, whitening / inverse whitening / similarity matrices in all, some or none of the probes '
+        '(written or skipped as Lean mergeOptional decides); every template cell is a distinct token. One case = one '
+        'real Merger.merge(), also run through the Lean file-system model of the whole merge; every fourth case uses '
+        'a Merger / process that has merged before. non-trivial = >= 2 probes (>= 3 probes of different sizes are '
+        'forced in the first cases)')
 ASSUMPTIONS = ['np.save/np.load are transport; scipy.linalg.block_diag is modelled by a list definition',
                'pc_feature_ind.npy and template_feature_ind.npy are present in every probe (Merger requires them)']
 
 
 def impl(case):
-    return M.run_merge(case)
+    return F.impl(case)       # incl. the `again` modes: a Merger / process that has merged before
 
 
 def model_query(case, impl_res):
@@ -30,7 +33,11 @@ def model_query(case, impl_res):
                 nts=[len(p['templates']) for p in P], ns=len(P[0]['templates'][0]), toks=[p['tok'] for p in P],
                 pc_ind=[p['pc_feature_ind'] for p in P], tf_ind=[p['template_feature_ind'] for p in P],
                 template_offsets=toff, spike_templates=[p['spike_templates'] for p in P],
-                params=[[int(p['sample_rate']), p['n_channels_dat']] for p in P])
+                wm_present=[p.get('whitening') is not None for p in P],
+                wmi_present=[p.get('whitening_inv') is not None for p in P],
+                sim_present=[p.get('similar_templates') is not None for p in P],
+                params=[[int(round(p['sample_rate'] * F.RATE_SCALE)), p['n_channels_dat']] for p in P],
+                _second=F.fs_query(case))
 
 
 def judge(case, impl_res, ans):
@@ -97,23 +104,34 @@ def judge(case, impl_res, ans):
     if ok['template_feature_ind']['vals'] != exp_tf or m['tf_ind'] != exp_tf:
         return 'SPEC: template_feature_ind is not shifted into the merged template numbering (got %s, expected %s)' % (
             ok['template_feature_ind']['vals'], exp_tf)
-    # matrices
-    for key, fn, mk in (('whitening', 'whitening_mat', 'whitening'), ('similar_templates', 'similar_templates', 'similar')):
-        present = [p.get(key) is not None for p in P]
-        if all(present):
+    if ok['channel_probe']['vals'] != m['channel_probe']:
+        return 'SPEC: channel_probe differs from the model'
+    # optional matrices: Lean `mergeOptional` decides written (block-diagonal) / skipped (theorems optional_*)
+    for key, fn, mk in (('whitening', 'whitening_mat', 'whitening'), ('similar_templates', 'similar_templates', 'similar'),
+                        ('whitening_inv', 'whitening_mat_inv', 'whitening_inv')):
+        if (m[mk] is None) != any(p.get(key) is None for p in P):
+            return 'MACHINERY: Lean mergeOptional contradicts optional_skipped_iff'
+        if m[mk] is None:
+            if fn == 'whitening_mat_inv':
+                continue         # skipped by the merger, then computed and written by the final load_model (C04)
+            if ok[fn] is not None:
+                return 'SPEC: %s.npy written although only some probes have it (its blocks cannot be placed)' % fn
+        else:
             if ok[fn] is None:
                 return 'SPEC: %s.npy missing although every probe has it' % fn
             if [[int(v) for v in row] for row in ok[fn]['vals']] != m[mk]:
                 return 'SPEC: %s is not block-diagonal with the per-probe matrices as blocks' % fn
-        elif ok[fn] is not None:
-            return 'SPEC: %s.npy written although only some probes have it (its blocks cannot be placed)' % fn
-    # params
-    if ok['params'].get('n_channels_dat') != sum(p['n_channels_dat'] for p in P) or \
-            float(ok['params'].get('sample_rate')) != float(P[0]['sample_rate']):
+    # params: Lean `mergeParams` (first probe's rate, summed raw channel count)
+    if m['params'] is None or [int(round(float(ok['params'].get('sample_rate')) * F.RATE_SCALE)),
+                               ok['params'].get('n_channels_dat')] != m['params']:
         return 'SPEC: merged params do not keep the sampling rate / declare the summed raw channel count'
+    mm = ok['model']
+    if mm['n_templates'] != sum(nts) or mm['n_channels'] != sum(ncs) or mm['channel_probes'] != m['channel_probe']:
+        return 'SPEC: the TemplateModel returned by merge() does not show the merged templates / channels / probe labels'
     if [[int(round(x)), int(round(y))] for x, y in pos] != m['positions']:
         return 'CORR: merged positions differ from the model'
-    return None
+    # the merge as a function on directories (Lean C11.merge): files created, contents of the channel/template files
+    return F.fs_compare(case, ok, ans.get('second') or {'err': 'no answer'}, F.C12_FILES)
 
 
 def nontrivial(case):
@@ -121,6 +139,7 @@ def nontrivial(case):
 
 
 def tally(rep, case, impl_res, ans):
+    rep.count('again:%s' % case.get('again', 'no'))
     rep.count('probe_dir_names:%s/%s' % (case.get('dirnames', 'idx'), case.get('dirkind', 'path')))
     rep.count('probes:%d' % len(case['probes']))
     rep.count('positions_dtype:' + (case['probes'][0].get('dtypes') or {}).get('channel_positions', 'float64'))
@@ -135,8 +154,9 @@ def tally(rep, case, impl_res, ans):
         rep.count('ind_dtype:' + p['dtypes']['pc_feature_ind'])
     if any(len({x for x, y in p['channel_positions']}) == 1 for p in P):
         rep.count('single_x_column_probe')
-    if any(p.get('similar_templates') is None for p in P):
-        rep.count('optional_matrix_in_some_probes')
+    for key in ('similar_templates', 'whitening', 'whitening_inv'):
+        n = sum(1 for p in P if p.get(key) is not None)
+        rep.count('optional_%s:%s' % (key, 'all' if n == len(P) else 'none' if n == 0 else 'some'))
 
 
 def classify(case, impl_res, ans, why):
@@ -156,6 +176,9 @@ def classify(case, impl_res, ans, why):
 
 
 def shrink(case):
+    if case.get('again') or case.get('twice'):
+        # first: does it fail on a fresh Merger in a fresh state too?
+        yield {k: v for k, v in case.items() if k not in ('again', 'prelude', 'twice')}
     P = case['probes']
     if len(P) > 1:
         for i in range(len(P)):
@@ -181,4 +204,15 @@ def gen(tier, rng):
             kw['last_template_empty'] = True
         if i % 5 == 1:
             kw['gapped'] = True       # channel maps with holes (dead channels): raw offsets != index offsets
-        yield dict(p=PID, **M.merge_case(rng, nprobes=[1, 2, 3, 4][i % 4] if i < 40 else None, **kw))
+        case = dict(p=PID, **M.merge_case(rng, nprobes=[1, 2, 3, 4][i % 4] if i < 40 else None, **kw))
+        if i % 6 in (2, 5):
+            # inverse whitening matrices stored in all (block-diagonal merge) or only some probes (skipped by the
+            # merger, computed by the final load); tokens: the whitening tokens + 500000
+            P = case['probes']
+            keep = [True] * len(P) if i % 6 == 2 or len(P) == 1 else [rng.random() < .6 for _ in P]
+            for k, p in enumerate(P):
+                if keep[k]:
+                    nc = len(p['channel_map'])
+                    p['whitening_inv'] = [[float(p['tok'] * 10000 + a * 100 + b + 1 + (100000 if a == b else 0) + 500000)
+                                           for b in range(nc)] for a in range(nc)]
+        yield F.with_again(case, i, rng)
